@@ -213,3 +213,66 @@ def nonempty_facts(test: ast.AST, polarity: bool) -> Set[str]:
             if (isinstance(op, ast.Lt) and k >= 1) or (isinstance(op, ast.LtE) and k >= 0) or (isinstance(op, ast.Eq) and k == 0):
                 return {x}
     return set()
+
+
+def fold_str(mod, e: ast.AST, depth: int = 0):
+    """constant folding of a string-valued expression built from literals, module-level names, __name__ / __package__ and the
+    pure str operations + / partition / rpartition / split / rsplit / [i] / f-strings; returns the value or None"""
+    if depth > 6:
+        return None
+    if isinstance(e, ast.Constant) and isinstance(e.value, (str, int)):
+        return e.value
+    if isinstance(e, ast.Name):
+        if e.id == "__name__":
+            return f"stackscope.{mod.name}" if mod.name != "__init__" else "stackscope"
+        if e.id == "__package__":
+            return "stackscope"
+        a = mod.toplevel_assign(e.id)
+        if a is not None and getattr(a, "value", None) is not None:
+            return fold_str(mod, a.value, depth + 1)
+        return None
+    if isinstance(e, ast.BinOp) and isinstance(e.op, ast.Add):
+        l, r = fold_str(mod, e.left, depth + 1), fold_str(mod, e.right, depth + 1)
+        return l + r if isinstance(l, str) and isinstance(r, str) else None
+    if isinstance(e, ast.JoinedStr):
+        out = ""
+        for v in e.values:
+            if isinstance(v, ast.Constant):
+                out += str(v.value)
+            elif isinstance(v, ast.FormattedValue) and v.conversion == -1 and v.format_spec is None:
+                x = fold_str(mod, v.value, depth + 1)
+                if not isinstance(x, str):
+                    return None
+                out += x
+            else:
+                return None
+        return out
+    if isinstance(e, ast.Subscript) and isinstance(e.slice, ast.Constant) and isinstance(e.slice.value, int):
+        base = fold_str(mod, e.value, depth + 1)
+        if isinstance(base, (tuple, list)) and -len(base) <= e.slice.value < len(base):
+            return base[e.slice.value]
+        return None
+    if isinstance(e, ast.Call) and isinstance(e.func, ast.Attribute) and e.func.attr in ("partition", "rpartition", "split", "rsplit") and not e.keywords:
+        recv = fold_str(mod, e.func.value, depth + 1)
+        args = [fold_str(mod, a, depth + 1) for a in e.args]
+        if isinstance(recv, str) and all(isinstance(a, (str, int)) for a in args):
+            try:
+                return tuple(getattr(recv, e.func.attr)(*args))
+            except Exception:
+                return None
+    return None
+
+
+def implies_sequence(g: ast.AST, var: str) -> bool:
+    """does the (true) condition g imply that `var` is a Sequence?  isinstance(var, ...Sequence / list / tuple...),
+    `type(var) is tuple|list`, a disjunction of such tests, or a conjunction containing one"""
+    if isinstance(g, ast.BoolOp) and isinstance(g.op, ast.Or):
+        return all(implies_sequence(x, var) for x in g.values)
+    if isinstance(g, ast.BoolOp) and isinstance(g.op, ast.And):
+        return any(implies_sequence(x, var) for x in g.values)
+    t = norm(g)
+    if t.startswith(f"isinstance({var},") and ("Sequence" in t or t.endswith(", (tuple, list))") or t.endswith(", (list, tuple))") or t.endswith(", tuple)") or t.endswith(", list)")):
+        return True
+    if t in (f"type({var}) is tuple", f"type({var}) is list", f"type({var}) in (tuple, list)", f"type({var}) in (list, tuple)"):
+        return True
+    return False
